@@ -414,7 +414,13 @@ def check_post_end(obs, ro):
         if r['run'] != run:
             continue
         k = r['k']
-        if k in ('submit', 'default_call', 'pool_start') or k.startswith('cb_node') or k == 'save' or \
+        if k == 'pool_start' and r['step'] - ro.end_step <= 1:
+            # a job that waited in the queue of a bounded pool is picked up by a worker in the one loop iteration
+            # between run() ending (its tasks have only been asked to cancel) and the cancellation reaching the
+            # pool's future: known finding KF-POOLWINDOW; a later pick-up is an ordinary 'started_after_end'
+            out.append(F(['C13'], 'queued_pool_job_started_in_cancel_window', node=r['node'], step=r['step'],
+                         end_step=ro.end_step))
+        elif k in ('submit', 'default_call', 'pool_start') or k.startswith('cb_node') or k == 'save' or \
                 k == 'cb_pipeline_start' or k == 'cb_pipeline_complete':
             out.append(F(['C13'], 'started_after_end', what=k, node=r['node'], step=r['step'],
                          end_step=ro.end_step))
